@@ -288,6 +288,8 @@ def wildcard_summary(table):
         if term["k"] == "call":
             f = term.get("fn") or {}
             calls.append(f.get("res") or f.get("path") or "?")
+            if re.search(r"(^|::)syn::Error$|^syn::error::Error$", term.get("dst_ty") or ""):
+                calls.append("<returns> syn::Error::new")       # a helper of the crate that builds the diagnostic
             if fn_matches(term, r"FromResidual") and term["dst"]["l"] == 0:
                 err_exit = True
     returns = any(b.term(x)["k"] == "return" for x in b.reachable_from([table.wild], stop=lambda x: x in stop))
